@@ -59,9 +59,15 @@ C08_lateJoinerBad(h, m, t, o) ==
   {IF h.track[s].vacatedSince THEN "C08.lateJoiner.seatVacatedSinceBlindsSet" ELSE "C08.lateJoiner" : s \in LateBadSeats(h, m, t, o)}
 
 (* ---------------------------------- C17 ---------------------------------- *)
-C17_button(m, t, o) == (o.op = "Next" /\ Cardinality(PlayableSet(m)) >= 2) =>
+\* "the previous dealer" is a fact of the history, not a field that any operation may rewrite: it is the dealer
+\* the last move to the next hand left behind (h.lastDealer: what the seat manager showed after the last Next,
+\* accepted or refused, or after positions were set explicitly) - taking or leaving a seat, sitting in or out
+\* do not change where the button was.  (A REFUSED Next of the code may move or forget the dealer; the next move
+\* then starts from what it left: recorded as the deviation RefusedNextHasEffects, not judged here.)
+PrevDealer(h, m) == h.lastDealer
+C17_button(h, m, t, o) == (o.op = "Next" /\ Cardinality(PlayableSet(m)) >= 2) =>
   /\ o.res = ""
-  /\ IF m.dealer # NULL THEN t.dealer = FirstCW(m, PlayableSet(m) \ {m.dealer}, m.dealer)
+  /\ IF PrevDealer(h, m) # NULL THEN t.dealer = FirstCW(m, PlayableSet(m) \ {PrevDealer(h, m)}, PrevDealer(h, m))
      ELSE t.dealer \in PlayableSet(m)
 C17_insufficient(m, t, o) == o.op = "Next" =>
   /\ (NonEmptyCount(m) < 2 => o.res = "ErrInsufficientNumberOfPlayers")
@@ -122,8 +128,9 @@ ConcBad(pre, calls, post, flags) ==
 
 \* occAtNext : seats occupied right after the last successful move to the next hand (all seats after a jump:
 \*             nothing is then attributed to the F8 shape by mistake... conservatively none)
-HistS0 == [joins |-> 0, leaves |-> 0, track |-> [s \in {} |-> 0], occAtNext |-> {}, posAtNext |-> <<NULL, NULL, NULL>>]
-HistSJump(t) == [joins |-> Cardinality(Occupied(t)), leaves |-> 0, track |-> [s \in {} |-> 0], occAtNext |-> {}, posAtNext |-> <<NULL, NULL, NULL>>]
+HistS0 == [joins |-> 0, leaves |-> 0, track |-> [s \in {} |-> 0], occAtNext |-> {}, posAtNext |-> <<NULL, NULL, NULL>>, lastDealer |-> NULL]
+HistSJump(t) == [joins |-> Cardinality(Occupied(t)), leaves |-> 0, track |-> [s \in {} |-> 0], occAtNext |-> {}, posAtNext |-> <<NULL, NULL, NULL>>,
+                 lastDealer |-> t.dealer]
 \* a jump to a state whose explorer path is known: positions / occupied seats of the last successful move on that path
 HistSJumpWith(t, pos, occ) == [HistSJump(t) EXCEPT !.posAtNext = pos, !.occAtNext = occ]
 HistSNext(h, m, t, o) ==
@@ -132,12 +139,13 @@ HistSNext(h, m, t, o) ==
                        + (IF o.op = "MT.Apply" THEN Cardinality({j \in 1..Len(o.cbs) : o.cbs[j][1] = "left"}) ELSE 0),
    track |-> TrackNext(h, m, t, o),
    occAtNext |-> IF NextOK(o) THEN Occupied(t) ELSE h.occAtNext,
-   posAtNext |-> IF NextOK(o) THEN <<t.dealer, t.sb, t.bb>> ELSE h.posAtNext]
+   posAtNext |-> IF NextOK(o) THEN <<t.dealer, t.sb, t.bb>> ELSE h.posAtNext,
+   lastDealer |-> IF o.op \in {"Next", "MT.Apply"} THEN t.dealer ELSE h.lastDealer]
 
 N(name, holds) == IF holds THEN {} ELSE {name}
 FailedSeat(h, h2, m, t, o, props) ==
   (IF "C08" \in props THEN N("C08.positions", C08_positions(m, t, o)) \cup C08_lateJoinerBad(h, m, t, o) ELSE {}) \cup
-  (IF "C17" \in props THEN N("C17.button", C17_button(m, t, o)) \cup N("C17.insufficient", C17_insufficient(m, t, o)) ELSE {}) \cup
+  (IF "C17" \in props THEN N("C17.button", C17_button(h, m, t, o)) \cup N("C17.insufficient", C17_insufficient(m, t, o)) ELSE {}) \cup
   (IF "C18" \in props THEN N("C18.noPanic", C18_noPanic(o)) \cup N("C18.count", o.res = "PANIC" \/ C18_count(h2, t))
                            \cup N("C18.join", C18_join(m, t, o)) \cup N("C18.heldOut", C18_heldOut(t, o))
                            \cup N("C18.leave", C18_leave(m, t, o)) \cup N("C18.noDup", C18_noDup(t))
